@@ -66,6 +66,9 @@ CLAIMED['C05'] = dict(design='3, 5 (C05)', engine='MIRBMC', text=BMC_TEXT, techn
 CLAIMED['C09'] = dict(design='3, 5 (C09)', engine='MIRBMC', text=BMC_TEXT, technique='solver-based bounded model checking (z3) of a transition system generated from rustc MIR',
     note='same trusted base as C05 plus: panic hook facts (installed before the first spawn, body calls process::exit) read from the MIR of Pipe::new; '
     'consumer idle / drop at any step; upstream effectively unbounded; Buffered producer defect repaired by a fix commit')
+CLAIMED['C17'] = dict(design='5 (C17), 2', note='trusted: MIRSE MIR semantics + std models, ndarray modelled as (shape, row-major data); groups come from the real byte '
+    'tokenizer on symbolic texts; sparse matrices from every batch composition over a pool of real tokenizations; padding / tensorisation on '
+    'symbolic ids, labels and pad ids; native replay through the `verif` hook views of SparseCoo / tensorised batches')
 NOT_YET = 'check not built yet in this session (work in progress, see DESIGN.md section 6 for the order)'
 NA = {}
 
@@ -99,7 +102,7 @@ m = {
     'setup_cmd': './setup.sh',
     'hooks': {'guard': 'cargo feature `verif` of text-utils', 'enable': 'cargo build --features text-utils/verif (replay binary); MIR dump uses the unhooked code paths',
               'baseline_off_cmd': 'cd /repo && cargo test --workspace --no-fail-fast --offline',
-              'source_commits': ['0908cb9'], 'add_only': True},
+              'source_commits': ['0908cb9', 'd5d76f6'], 'add_only': True},
     'engines': [
         {'name': 'MIRBMC', 'path': 'mirse/mirbmc.py', 'serves_properties': ['C05', 'C09'],
          'kind_free_text': 'bounded model checker for the thread protocols: transition relation generated from the MIR CFG of the worker closures, z3 QF_BV'},
